@@ -54,6 +54,7 @@ MGATED = {
     "MC_mgated_cover": dict(ns=2, nml=0, wh=[], ws=[]),
     "MC_mgated_cover1": dict(ns=2, nml=1, wh=[], ws=[]),
     "MC_mgated_sim": dict(ns=2, nml=1, wh=[1], ws=[2]),
+    "MC_mgated_one": dict(ns=1, nml=1, wh=[1], ws=[]),
     "MC_mgated_sim3": dict(ns=3, nml=2, wh=[1], ws=[2]),
 }
 
@@ -130,7 +131,7 @@ def run(ctx):
     # behaviours of MC_gated_core (a printed state with nilCalls > 0 is a counterexample of the invariant).
     gated = ["MC_gated_core", "MC_gated_modes", "MC_gated_wait", "MC_gated_nilfn"] if quick else \
             ["MC_gated_core3", "MC_gated_wait", "MC_gated_nilfn5", "MC_gated_lw", "MC_gated_l2"]
-    mg = [("MC_mgated_cover" if quick else "MC_mgated_cover1", None, None), ("MC_mgated_sim", "num=%d" % (40 if quick else 400), 40)]
+    mg = [("MC_mgated_one", None, None), ("MC_mgated_cover" if quick else "MC_mgated_cover1", None, None), ("MC_mgated_sim", "num=%d" % (40 if quick else 400), 40)]
     if not quick:
         mg.append(("MC_mgated_sim3", "num=300", 60))
     thunks = [tlc_ok("ServiceGated", cfg, heap="3g") for cfg in gated]
